@@ -856,7 +856,7 @@ OrcProgram *ps_build (ProgSpec *ps)
     switch (v->kind) {
       case VK_DEST: v->orcvar = orc_program_add_destination_full (p, v->size, v->name, tn, v->align); break;
       case VK_SRC: v->orcvar = orc_program_add_source_full (p, v->size, v->name, tn, v->align); break;
-      case VK_ACC: v->orcvar = orc_program_add_accumulator (p, v->size, v->name); break;
+      case VK_ACC: v->orcvar = orc_program_add_accumulator (p, v->size, v->name); if (tn) orc_program_set_type_name (p, v->orcvar, tn); break;
       case VK_CONST:
         if (v->size == 8) v->orcvar = orc_program_add_constant_int64 (p, v->size, (orc_int64) v->cval, v->name);
         else v->orcvar = orc_program_add_constant (p, v->size, (int) (uint32_t) v->cval, v->name);
